@@ -111,6 +111,31 @@ func checkC12(c *Ctx, r *Result, tier string) {
 	for _, fn := range fns {
 		for _, f := range []*types.Var{fMutexes, fOwners} {
 			for _, a := range elemAccessesOf(fn, f) {
+				// a helper that stores a value it is handed (setOwner(name, owner)) is one table
+				// operation per call: at the call site, with the arguments for key and value
+				if vp, isPrm := unspill(a.Val).(*ssa.Parameter); isPrm && a.Kind == "mapupdate" && fn != blockFn && fn.Parent() == nil && vp.Parent() == fn {
+					inst := 0
+					for _, base := range append([]*ssa.Function{blockFn}, blockFn.AnonFuncs...) {
+						for _, site := range staticCalleesIn(c, base)[fn] {
+							args := callArgs(site.Common())
+							sub := func(v ssa.Value) ssa.Value {
+								if prm, ok := unspill(v).(*ssa.Parameter); ok {
+									for i, p := range fn.Params {
+										if p == prm && i < len(args) {
+											return args[i]
+										}
+									}
+								}
+								return v
+							}
+							ops = append(ops, tableOp{site.(ssa.Instruction), base, f, a.Kind, sub(a.Key), sub(a.Val)})
+							inst++
+						}
+					}
+					if inst > 0 {
+						continue
+					}
+				}
 				ops = append(ops, tableOp{a.Instr, fn, f, a.Kind, a.Key, a.Val})
 			}
 		}
